@@ -37,20 +37,26 @@ func ExecC05Async(caseText string) string {
 	}
 	var inner string
 	var bound int
+	// early stop: Limit(k) downstream of the stage; the terminal returns after k elements while the source still has
+	// elements, and everything pulled up to the moment the whole materialisation is gone is counted
+	extra := ""
+	if kv["limit"] != "" && kv["limit"] != "0" {
+		extra = " limit=" + kv["limit"]
+	}
 	switch f[1] {
 	case "buffered":
 		n, _ := strconv.Atoi(kv["n"])
 		if n < 2 {
 			return "bad-case buffered needs n>=2"
 		}
-		inner = fmt.Sprintf("buf c=1 n=%d size=%d sync=1 mg=0 cg=1 script=%s", ln, n, script)
+		inner = fmt.Sprintf("buf c=1 n=%d size=%d sync=1 mg=0 cg=1%s script=%s", ln, n, extra, script)
 		bound = n
 	case "concmap":
 		c, _ := strconv.Atoi(kv["c"])
 		if c < 1 {
 			return "bad-case concmap needs c>=1"
 		}
-		inner = fmt.Sprintf("cmap c=%d n=%d sync=1 mg=0 cg=1 script=%s", c, ln, script)
+		inner = fmt.Sprintf("cmap c=%d n=%d sync=1 mg=0 cg=1%s script=%s", c, ln, extra, script)
 		bound = 3*c + 1
 	default:
 		return "bad-case"
@@ -72,6 +78,17 @@ func ExecC05Async(caseText string) string {
 			leak = strings.TrimPrefix(t, "leak=")
 		}
 	}
+	// every source Emit call that returned a value, up to quiescence after the terminal returned (plog `r<g>v`)
+	pulled := 0
+	for _, t := range strings.Fields(obs) {
+		if strings.HasPrefix(t, "plog=") {
+			for _, tok := range strings.Split(strings.TrimPrefix(t, "plog="), ",") {
+				if strings.HasPrefix(tok, "r") && strings.HasSuffix(tok, "v") {
+					pulled++
+				}
+			}
+		}
+	}
 	maxAhead, handed := 0, 0
 	if trace != "-" && trace != "" {
 		for _, tok := range strings.Split(trace, ",") {
@@ -89,7 +106,7 @@ func ExecC05Async(caseText string) string {
 			}
 		}
 	}
-	return fmt.Sprintf("res=%s runahead=%d handed=%d len=%d bound=%d leak=%s", res, maxAhead, handed, ln, bound, leak)
+	return fmt.Sprintf("res=%s runahead=%d handed=%d len=%d bound=%d leak=%s pulled=%d", res, maxAhead, handed, ln, bound, leak, pulled)
 }
 
 // GenC05Async generates the `A ...` cases (through c.Case, i.e. through the registered C05 Exec).
@@ -104,6 +121,21 @@ func GenC05Async(c *Ctx) {
 	for cc := 1; cc <= maxC; cc++ {
 		for _, ln := range []int{0, 1, 3 * cc, 3*cc + 1, 3*cc + 2, 3*cc + 3, 4*cc + 7, 40} {
 			c.Case(ln > 3*cc+1, fmt.Sprintf("A concmap c=%d len=%d script=-", cc, ln))
+		}
+	}
+	// early stop (Limit(k) downstream): pulled in total <= k + bound, also after the terminal returned
+	for n := 2; n <= maxN; n++ {
+		for _, k := range []int{1, 2, n, n + 3} {
+			for _, ln := range []int{k, k + 1, k + n, k + n + 1, 60, 300} {
+				c.Case(ln > k+n, fmt.Sprintf("A buffered n=%d len=%d limit=%d script=-", n, ln, k))
+			}
+		}
+	}
+	for cc := 1; cc <= maxC; cc++ {
+		for _, k := range []int{1, 2, cc + 1, 3*cc + 2} {
+			for _, ln := range []int{k, k + 1, k + 3*cc + 1, k + 3*cc + 2, 60, 300} {
+				c.Case(ln > k+3*cc+1, fmt.Sprintf("A concmap c=%d len=%d limit=%d script=-", cc, ln, k))
+			}
 		}
 	}
 	nr := c.Pick(40, 600)
